@@ -1,5 +1,5 @@
 from .. import facts
-from ..rules import image, geometry, codec, status, prefetch
+from ..rules import image, geometry, codec, status, prefetch, deadcmp
 
 
 def run(ck):
@@ -17,3 +17,6 @@ def run(ck):
     prefetch.r11_tail_access_needs_remaining_count(ck, P, 'C03-R8')
     geometry.r9_clip_consulted_under_its_flag(ck, P)
     geometry.r10_region_gets_callers_images(ck, P)
+    status.r19_13_shortcut_needs_plain_destination(ck, P, 'C03-R13')   # a shortcut that ignores the alpha map ignores its bounds
+    geometry.r12_dest_alpha_clip_offset(ck, P)
+    deadcmp.r_equality_with_unreachable_value(ck, P, 'C03-R14', floor=300)   # the missed saturation walks rows outside the image
